@@ -351,6 +351,33 @@ m("twin-neg-arms-reordered", ["C03", "C19"], "silent", TC,
   "            Type::Int | Type::Float => Ok(()),\n\n            // Negation is element-wise", "            Type::Float | Type::Int => Ok(()),\n\n            // Negation is element-wise")
 
 
+# ---- PROGRESS (parser termination)
+m("progress-block-error-arm-keeps-cursor", ["C07"], ["PROGRESS|statement::block|loop#1"], PST,
+  "                ctx = _ctx.pop_skip_newlines(false); // assign to outer\n                ctx = skip_until!(ctx, T::Newline).skip_if(T::Newline);\n", "                let _ = _ctx;\n")
+m("progress-module-error-arm-keeps-cursor", ["C07"], ["PROGRESS|sylt_parser::module|loop#1"], PPA,
+  "            Err((ctx, mut errs)) => {\n                errors.append(&mut errs);\n\n                // \"Error recovery\"\n                skip_until!(ctx, T::Newline)\n            }",
+  "            Err((_, mut errs)) => {\n                errors.append(&mut errs);\n                ctx\n            }")
+m("progress-constraint-args-no-skip", ["C07"], ["PROGRESS|sylt_parser::parse_type_constraint_argument|loop#1"], PPA,
+  "            }\n        }\n        ctx = ctx.skip(1);\n    }\n    Ok((ctx, args))", "            }\n        }\n    }\n    Ok((ctx, args))")
+m("progress-blob-fields-newline-not-skipped", ["C07"], ["PROGRESS|statement::statement|loop#2"], PST,
+  "                    T::Newline => {\n                        ctx = ctx.skip(1);\n                    }\n                    // Done with fields.", "                    T::Newline => {}\n                    // Done with fields.")
+m("progress-call-args-eof-keeps-looping", ["C07"], ["PROGRESS|sylt_parser::assignable_call|loop#1"], PPA,
+  "                let (_ctx, expr) = match (expression(ctx), primer) {\n                    (Err(_), true) => break,", "                let (_ctx, expr) = match (expression(ctx), primer) {\n                    (Err(_), true) => continue,")
+m("progress-skip-counts-comments", ["C07"], ["PROGRESS|Context::skip|advances-n"], PPA,
+  "            if !matches!(new.token(), T::Comment(_)) {\n                skipped += 1;\n            }\n            new.curr += 1;", "            if !matches!(new.token(), T::Comment(_)) {\n                skipped += 1;\n                new.curr += 1;\n            }")
+m("twin-elif-loop-on-else-errors", ["C07"], "silent", PEX,
+  "    while matches!(ctx.token(), T::Elif) {", "    while matches!(ctx.token(), T::Elif | T::Else) {")
+# terminating variants of the recovery code (an error has been recorded, so nothing is emitted either way): no alarm
+m("twin-block-recovery-keeps-newline", ["C07"], "silent", PST,
+  "                ctx = skip_until!(ctx, T::Newline).skip_if(T::Newline);", "                ctx = skip_until!(ctx, T::Newline);")
+m("twin-module-recovery-dropped", ["C07"], "silent", PPA,
+  "                // \"Error recovery\"\n                skip_until!(ctx, T::Newline)", "                // \"Error recovery\"\n                ctx")
+m("twin-call-args-eof-through-error", ["C07"], "silent", PPA,
+  "            // Done with arguments.\n            T::EOF | T::RightParen => break,", "            // Done with arguments.\n            T::RightParen => break,")
+m("twin-module-newline-test-reordered", ["C07"], "silent", PPA,
+  "        if matches!(ctx.token(), T::Newline) {\n            ctx = ctx.skip(1);\n            continue;\n        }", "        if let T::Newline = ctx.token() {\n            ctx = ctx.skip(1);\n            continue;\n        }")
+
+
 # ---- extraction twins (a few lines moved into a new private helper; the loader inlines unknown helpers)
 m("twin-break-guard-extracted", ["C05", "C06"], "silent", TC,
   "            S::Break(span) => {\n                if !ctx.inside_loop {\n                    err_type_error!(\n                        self,\n                        *span,\n                        TypeError::Exotic,\n                        \"`break` only works in loops\"\n                    )\n                } else {\n                    Ok(None)\n                }\n            }",
